@@ -442,6 +442,9 @@ class Program:
         raw = _facts.load_raw(repo or _facts.REPO, variant)
         P = cls(raw)
         P.view = view
+        if view == "asis":
+            # the program exactly as compiled: helpers that are not on the pinned tree stay functions of their own
+            normalize = False
         if normalize and not os.environ.get("VERIF_NO_NORMALIZE"):
             from . import inline
             inline.normalize_program(P)
